@@ -20,6 +20,7 @@ def check(ctx):
     ac.mc_attach(ctx, cfgs)
     ac.mc_attach_seg(ctx, [("HLJ", 0)] if not thorough else [("HLJ", 0), ("JS", 1), ("GD", 0), ("HN", 1), ("SC", 0)])
     ac.trace_attach(ctx, 1500 if thorough else 150)
+    ac.big_uploads(ctx)
     ctx.cov["rule"] = ("MC_Attach: every behaviour of a terminal announcing NFiles files and sending 0x1211, any disjoint split into "
                        "chunks <= MaxChunk in any order with exact resends, interleaved files, early/late 0x1212, up to MaxSteps units; "
                        "each terminal behaviour is a script replayed under 6 segmentations. MC_AttachSeg: all (i<j) cut pairs of a fixed "
